@@ -442,8 +442,8 @@ def parse_answer(a):
         return None
     head, _, tail = a.partition(" |")
     h = head.split()
-    if len(h) == 2 and h[0] == "run":
-        h = ["0", "0", h[1] if h[1] != "-" else "0"]
+    if len(h) == 2 and h[0] in ("run", "rcp"):
+        h = ["0", "0", h[1] if h[1] != "-" and h[0] == "run" else "0"]
     if len(h) != 3:
         return None
     ems = []
@@ -703,7 +703,7 @@ def case_from_json(j, tag):
     closed = set()
     for op in c.ops:
         w = op.split()
-        if w[0] in ("drain", "run"):
+        if w[0] in ("drain", "run", "rcperr"):
             closed.add((int(w[1]), w[2][0]))
     c.complete = j.get("complete", all(k in closed for k in c.streams))
     return c
